@@ -48,12 +48,15 @@ VARIABLES l,        \* next line to consume
           cyc,      \* background instance id -> roots it has dispatched (C08: one per root)
           q0,       \* [t, db] when the clients stopped ("quiesce" event), for C11
           rerr,     \* owners (request ids) whose router consultation failed
+          idc,      \* id -> its sequence of characters ("chars" events), for search patterns
+          trav,     \* search traversal -> [args, ids returned so far, always: ids that matched at
+                    \* every state since the first page, done]
           chk       \* verdicts about the last event (see Check*)
 
-vars == <<l, db, pdb, exp, now, reqs, cand, snaps, faulted, sends, lapsed, claims, seen, cfg, path, cyc, q0, rerr, chk>>
+vars == <<l, db, pdb, exp, now, reqs, cand, snaps, faulted, sends, lapsed, claims, seen, cfg, path, cyc, q0, rerr, idc, trav, chk>>
 
 NoChk == [tables |-> {}, who |-> "", owners |-> {}, resp |-> "", why |-> "", drift |-> "", dup |-> {}, lint |-> {},
-          dupRoot |-> FALSE]
+          dupRoot |-> FALSE, travDup |-> FALSE, travMissing |-> {}, cursor |-> TRUE]
 
 \* known findings met during validation are collected in TLC register 42 and printed
 \* by the postcondition (the check turns them into KNOWN-FINDING lines)
@@ -239,7 +242,7 @@ Init ==
   /\ l = 1 /\ db = EmptyDB /\ pdb = EmptyDB /\ exp = EmptyDB /\ now = 0
   /\ reqs = <<>> /\ cand = <<>> /\ snaps = <<>> /\ faulted = {} /\ sends = <<>>
   /\ lapsed = {} /\ claims = {} /\ seen = <<>> /\ cfg = <<>> /\ chk = NoChk
-  /\ path = <<EmptyDB>> /\ cyc = <<>> /\ q0 = [t |-> -1, db |-> EmptyDB] /\ rerr = {}
+  /\ path = <<EmptyDB>> /\ cyc = <<>> /\ q0 = [t |-> -1, db |-> EmptyDB] /\ rerr = {} /\ idc = <<>> /\ trav = <<>>
 
 Consume == l <= Len(TraceLog) /\ l' = l + 1
 
@@ -248,19 +251,19 @@ EReset ==
   /\ db' = EmptyDB /\ pdb' = EmptyDB /\ exp' = EmptyDB /\ now' = Ev.t
   /\ reqs' = <<>> /\ cand' = <<>> /\ snaps' = <<>> /\ faulted' = {} /\ sends' = <<>>
   /\ lapsed' = {} /\ claims' = {} /\ seen' = <<>> /\ cfg' = Ev.cfg /\ chk' = NoChk
-  /\ path' = <<EmptyDB>> /\ cyc' = <<>> /\ q0' = [t |-> -1, db |-> EmptyDB] /\ rerr' = {}
+  /\ path' = <<EmptyDB>> /\ cyc' = <<>> /\ q0' = [t |-> -1, db |-> EmptyDB] /\ rerr' = {} /\ idc' = <<>> /\ trav' = <<>>
 
 ESubmit ==
   /\ Consume /\ Ev.e = "submit"
-  /\ reqs' = Put(reqs, Ev.r, [kind |-> Ev.kind, args |-> Ev.args, t |-> Ev.t, l |-> l])
+  /\ reqs' = Put(reqs, Ev.r, [kind |-> Ev.kind, args |-> Ev.args, t |-> Ev.t, l |-> l, trav |-> Ev.trav, page |-> Ev.page])
   /\ pdb' = db /\ chk' = NoChk /\ path' = <<db>>
-  /\ UNCHANGED <<db, exp, now, cand, snaps, faulted, sends, lapsed, claims, seen, cfg, cyc, q0, rerr>>
+  /\ UNCHANGED <<db, exp, now, cand, snaps, faulted, sends, lapsed, claims, seen, cfg, cyc, q0, rerr, idc, trav>>
 
 ETick ==
   /\ Consume /\ Ev.e = "tick"
   /\ now' = Ev.t /\ lapsed' = lapsed \cup LapsedIn(db, Ev.t)
   /\ pdb' = db /\ chk' = NoChk /\ path' = <<db>>
-  /\ UNCHANGED <<db, exp, reqs, cand, snaps, faulted, sends, claims, seen, cfg, cyc, q0, rerr>>
+  /\ UNCHANGED <<db, exp, reqs, cand, snaps, faulted, sends, claims, seen, cfg, cyc, q0, rerr, idc, trav>>
 
 NewClaims(P, Q) ==
   {<<x, Q.tasks[x].counter>> : x \in {y \in DOMAIN Q.tasks :
@@ -287,7 +290,10 @@ ECommit ==
                                 !.who = ToString(Owners(Ev.txs)), !.owners = Owners(Ev.txs),
                                 !.drift = f.drift,
                                 !.dup = NewClaims(db, post) \cap claims]
-  /\ UNCHANGED <<now, reqs, sends, seen, cfg, cyc, q0, rerr>>
+        /\ trav' = [x \in DOMAIN trav |->
+                      IF trav[x].done \/ trav[x].kind # "SearchPromises" THEN trav[x]
+                      ELSE [trav[x] EXCEPT !.always = @ \cap PromiseMatchSet(post, trav[x].args, idc)]]
+  /\ UNCHANGED <<now, reqs, sends, seen, cfg, cyc, q0, rerr, idc>>
 
 \* promise bodies carried by a response
 BodiesOf(kind, b) ==
@@ -299,8 +305,26 @@ BodiesOf(kind, b) ==
 
 \* The clock readings tau at which body is the level-A answer of request rq at one of its
 \* linearization points (empty set: the reply is not linearizable).
+SearchTicks(r, rq, body, t) ==
+  IF rq.kind = "SearchPromises"
+  THEN {tt \in UNION {{s.dt, t} : s \in GetOr(snaps, r, {})} :
+          \E s \in GetOr(snaps, r, {}) : tt \in {s.dt, t}
+             /\ CursorStart(s.S.porder, rq.args.cursor) >= 0
+             /\ SearchOverdueHits(s.S, rq.args, idc, tt) = {}
+             /\ SearchPromisesRes(s.S, rq.args, idc) = body}
+  ELSE {tt \in UNION {{s.dt, t} : s \in GetOr(snaps, r, {})} :
+          \E s \in GetOr(snaps, r, {}) : tt \in {s.dt, t} /\
+             \/ CursorStart(s.S.sorder, rq.args.cursor) < 0
+             \/ LET ids == SearchSchedulesIds(s.S, rq.args, idc) IN
+                /\ [i \in DOMAIN body.schedules |-> body.schedules[i].id] = ids
+                /\ body.cursor = (IF Len(ids) = rq.args.limit THEN Some(ids[Len(ids)]) ELSE None)
+                /\ \A i \in DOMAIN ids : LET row == s.S.schedules[ids[i]]  b == body.schedules[i] IN
+                      /\ b.cron = row.cron /\ b.tags = row.tags /\ b.last = row.last /\ b.next = row.next
+                      /\ b.ikey = row.ikey /\ b.createdOn = row.createdOn}
+
 LinTicks(r, rq, body, t) ==
-  IF rq.kind = "ClaimTask"
+  IF rq.kind \in {"SearchPromises", "SearchSchedules"} THEN SearchTicks(r, rq, body, t)
+  ELSE IF rq.kind = "ClaimTask"
   THEN LET \* the attempt counter is advisory: the claim writes back the value it read earlier
            core(b) == [status |-> b.status,
                        task |-> IF IsSome(b.task) THEN Some([The(b.task) EXCEPT !.attempt = 0]) ELSE None] IN
@@ -330,20 +354,32 @@ FaultStatuses == {STORE_ERROR}
 ERespond ==
   /\ Consume /\ Ev.e = "respond"
   /\ LET rq == reqs[Ev.r]
-         ticks == IF rq.kind \in {"SearchPromises", "SearchSchedules"} THEN {Ev.t}
-                  ELSE IF Ev.err /\ Ev.body.status \in FaultStatuses /\ Ev.r \in faulted THEN {Ev.t}
+         ticks == IF Ev.err /\ Ev.body.status \in FaultStatuses /\ Ev.r \in faulted THEN {Ev.t}
                   ELSE LinTicks(Ev.r, rq, Ev.body, Ev.t)
          lin == ticks # {}
          bodies == BodiesOf(rq.kind, Ev.body)
          finals == {b \in bodies : b.state \in TerminalStates}
+         isTrav == rq.kind = "SearchPromises" /\ rq.trav # "" /\ ~ Ev.err /\ lin
+         pageIds == IF isTrav THEN [i \in DOMAIN Ev.body.promises |-> Ev.body.promises[i].id] ELSE <<>>
+         old == IF isTrav /\ Has(trav, rq.trav) THEN trav[rq.trav]
+                ELSE [kind |-> rq.kind, args |-> rq.args, ids |-> <<>>, always |-> {}, done |-> FALSE, pages |-> 0]
+         \* the state the first page was answered from starts the "throughout" interval
+         first == IF isTrav /\ ~ Has(trav, rq.trav)
+                  THEN LET s == CHOOSE s \in GetOr(snaps, Ev.r, {}) : SearchPromisesRes(s.S, rq.args, idc) = Ev.body
+                       IN PromiseMatchSet(s.S, rq.args, idc) \cap PromiseMatchSet(db, rq.args, idc)
+                  ELSE old.always
+         new == [old EXCEPT !.ids = @ \o pageIds, !.always = first, !.done = IsNone(Ev.body.cursor), !.pages = @ + 1]
      IN /\ chk' = [NoChk EXCEPT !.resp = IF lin /\ Ev.n = 1 THEN "" ELSE rq.kind,
                                 !.who = rq.kind, !.lint = ticks,
-                                !.why = IF Ev.n # 1 THEN "second reply" ELSE ""]
+                                !.why = IF Ev.n # 1 THEN "second reply" ELSE "",
+                                !.travDup = isTrav /\ ~ NoDup(new.ids),
+                                !.travMissing = IF isTrav /\ new.done THEN new.always \ Range(new.ids) ELSE {}]
+        /\ trav' = IF isTrav THEN Put(trav, rq.trav, new) ELSE trav
         /\ seen' = [id \in (DOMAIN seen) \cup {b.id : b \in finals} |->
                       IF id \in DOMAIN seen THEN seen[id]
                       ELSE [final |-> Final(CHOOSE b \in finals : b.id = id), l |-> l]]
   /\ pdb' = db /\ path' = <<db>>
-  /\ UNCHANGED <<db, exp, now, reqs, cand, snaps, faulted, sends, lapsed, claims, cfg, cyc, q0, rerr>>
+  /\ UNCHANGED <<db, exp, now, reqs, cand, snaps, faulted, sends, lapsed, claims, cfg, cyc, q0, rerr, idc>>
 
 ESend ==
   /\ Consume /\ Ev.e = "send"
@@ -352,19 +388,32 @@ ESend ==
      /\ cyc' = AddTo(cyc, Ev.o, root)
      /\ chk' = [NoChk EXCEPT !.dupRoot = root \in GetOr(cyc, Ev.o, {})]
   /\ pdb' = db /\ path' = <<db>>
-  /\ UNCHANGED <<db, exp, now, reqs, cand, snaps, faulted, lapsed, claims, seen, cfg, q0, rerr>>
+  /\ UNCHANGED <<db, exp, now, reqs, cand, snaps, faulted, lapsed, claims, seen, cfg, q0, rerr, idc, trav>>
 
 ERoute ==
   /\ Consume /\ Ev.e = "route"
   /\ rerr' = IF Ev.err THEN rerr \cup {Ev.o} ELSE rerr
   /\ pdb' = db /\ chk' = NoChk /\ path' = <<db>>
-  /\ UNCHANGED <<db, exp, now, reqs, cand, snaps, faulted, sends, lapsed, claims, seen, cfg, cyc, q0>>
+  /\ UNCHANGED <<db, exp, now, reqs, cand, snaps, faulted, sends, lapsed, claims, seen, cfg, cyc, q0, idc, trav>>
 
 \* the process dies: in-flight requests lose their responses, the database stays
 ECrash ==
   /\ Consume /\ Ev.e = "crash"
   /\ pdb' = db /\ chk' = NoChk /\ path' = <<db>>
-  /\ UNCHANGED <<db, exp, now, reqs, cand, snaps, faulted, sends, lapsed, claims, seen, cfg, cyc, q0, rerr>>
+  /\ UNCHANGED <<db, exp, now, reqs, cand, snaps, faulted, sends, lapsed, claims, seen, cfg, cyc, q0, rerr, idc, trav>>
+
+EChars ==
+  /\ Consume /\ Ev.e = "chars"
+  /\ idc' = [id \in (DOMAIN idc) \cup (DOMAIN Ev.ids) |-> IF id \in DOMAIN Ev.ids THEN Ev.ids[id] ELSE idc[id]]
+  /\ pdb' = db /\ chk' = NoChk /\ path' = <<db>>
+  /\ UNCHANGED <<db, exp, now, reqs, cand, snaps, faulted, sends, lapsed, claims, seen, cfg, cyc, q0, rerr, trav>>
+
+\* a cursor was handed to the API layer for decoding
+ECursor ==
+  /\ Consume /\ Ev.e = "cursor"
+  /\ chk' = [NoChk EXCEPT !.cursor = (Ev.accepted = ~ Ev.forged)]
+  /\ pdb' = db /\ path' = <<db>>
+  /\ UNCHANGED <<db, exp, now, reqs, cand, snaps, faulted, sends, lapsed, claims, seen, cfg, cyc, q0, rerr, idc, trav>>
 
 \* the clients have stopped and every request has been answered: from here on only the
 \* background coroutines run (C11)
@@ -372,7 +421,7 @@ EQuiesce ==
   /\ Consume /\ Ev.e = "quiesce"
   /\ q0' = [t |-> Ev.t, db |-> db]
   /\ pdb' = db /\ chk' = NoChk /\ path' = <<db>>
-  /\ UNCHANGED <<db, exp, now, reqs, cand, snaps, faulted, sends, lapsed, claims, seen, cfg, cyc, rerr>>
+  /\ UNCHANGED <<db, exp, now, reqs, cand, snaps, faulted, sends, lapsed, claims, seen, cfg, cyc, rerr, idc, trav>>
 
 \* restart / end / observe carry a fresh projection: it must be the database we know
 EObserve ==
@@ -380,15 +429,15 @@ EObserve ==
   /\ pdb' = db /\ db' = PostOf(Ev, db) /\ exp' = db
   /\ chk' = [NoChk EXCEPT !.tables = DiffTables(db, PostOf(Ev, db)), !.who = Ev.e]
   /\ path' = <<db, PostOf(Ev, db)>>
-  /\ UNCHANGED <<now, reqs, cand, snaps, faulted, sends, lapsed, claims, seen, cfg, cyc, q0, rerr>>
+  /\ UNCHANGED <<now, reqs, cand, snaps, faulted, sends, lapsed, claims, seen, cfg, cyc, q0, rerr, idc, trav>>
 
 EOther ==
   /\ Consume /\ Ev.e \notin {"reset", "submit", "tick", "commit", "respond", "send", "route", "crash",
-                            "restart", "end", "observe", "quiesce"}
+                            "restart", "end", "observe", "quiesce", "chars", "cursor"}
   /\ pdb' = db /\ chk' = NoChk /\ path' = <<db>>
-  /\ UNCHANGED <<db, exp, now, reqs, cand, snaps, faulted, sends, lapsed, claims, seen, cfg, cyc, q0, rerr>>
+  /\ UNCHANGED <<db, exp, now, reqs, cand, snaps, faulted, sends, lapsed, claims, seen, cfg, cyc, q0, rerr, idc, trav>>
 
-Next == EReset \/ ESubmit \/ ETick \/ ECommit \/ ERespond \/ ESend \/ ERoute \/ ECrash \/ EQuiesce \/ EObserve \/ EOther
+Next == EChars \/ ECursor \/ EReset \/ ESubmit \/ ETick \/ ECommit \/ ERespond \/ ESend \/ ERoute \/ ECrash \/ EQuiesce \/ EObserve \/ EOther
 
 Spec == Init /\ [][Next]_vars
 
@@ -551,6 +600,18 @@ C10_FiringCreatesPromiseT == Steps(C10_FiringCreatesPromise)
 C10_NextAfterCreationT == C10_NextAfterCreation(db)
 C10_ScheduleChanges == IsStep => chk.tables \cap {"schedules", "sorder"} = {}
 C10_ScheduleReplies == (IsRespond /\ reqs[Last.r].kind \in ScheduleKinds) => chk.resp = ""
+
+\* --- C14
+SearchKinds == {"SearchPromises", "SearchSchedules"}
+\* each page is the query result (matching rows only, newest first, at most the page size,
+\* cursor exactly when the page is full) on the state of one of the request's commit points,
+\* with no overdue promise reported pending
+C14_PageIsTheQueryResult == (IsRespond /\ reqs[Last.r].kind \in SearchKinds) => chk.resp = ""
+C14_NoDuplicates == IsRespond => ~ chk.travDup
+C14_Complete == IsRespond => chk.travMissing = {}
+C14_ForgedCursorRejected == Last.e = "cursor" => chk.cursor
+C14_SearchChangesOnlyTimeouts ==
+  (IsStep /\ chk.owners \cap SearchKinds # {}) => chk.tables = {}
 
 \* --- C11: when the run ends (the harness has let the background coroutines run the
 \* configured number of cycles after the clients stopped at q0.t) nothing that was overdue
